@@ -2465,3 +2465,62 @@ def work_always_collected(check: Check, repo: Repo, rule: str = "NULLED-ABORTED"
              "a response is built without calling get_incremental_work() - the only place where work at a nulled position is "
              "aborted: a response nulled by a root error leaves early-started groups and streams running and their sources open "
              f"(line {next((nd.ast.lineno for nd in path if nd.ast is not None and hasattr(nd.ast, 'lineno')), '?')})")
+
+
+def path_threading(check: Check, repo: Repo, rule: str = "PATH-THREAD") -> None:
+    check.rule(
+        rule,
+        "the response path of a value is handed down the completion chain as the parameter `path`: a method of the "
+        "executor classes that received `path` passes, to every method of those classes that takes a `path`, a value "
+        "derived from its own parameter (the parameter itself, or a local computed from it such as path.add_key(index)). "
+        "`info.path` is the path of the *field* - for the items of a nested list it is shorter than the item's path - so "
+        "passing it instead locates item errors at the wrong position and lets the per-position error bookkeeping drop "
+        "errors of sibling rows",
+    )
+    mods = [repo.mod("execution.executor"), repo.mod("execution.incremental.incremental_executor")]
+    methods: dict[str, list[str]] = {}
+    fns = []
+    for m in mods:
+        for cls in [s for s in m.tree.body if isinstance(s, ast.ClassDef) and s.name.endswith("Executor")]:
+            for f in cls.body:
+                if isinstance(f, (ast.FunctionDef, ast.AsyncFunctionDef)):
+                    ps = [a.arg for a in f.args.posonlyargs + f.args.args + f.args.kwonlyargs]
+                    if "path" in ps:
+                        methods.setdefault(f.name, ps)
+                        fns.append(f)
+    if len(methods) < 10:
+        raise AnalysisError("PATH-THREAD: executor methods taking `path` not found")
+    n = 0
+    for f in fns:
+        # locals derived from the parameter (transitively, flow-insensitive)
+        derived = {"path"}
+        changed = True
+        while changed:
+            changed = False
+            for s in ast.walk(f):
+                if isinstance(s, ast.Assign) and any(isinstance(x, ast.Name) and x.id in derived for x in ast.walk(s.value)):
+                    for t in s.targets:
+                        if isinstance(t, ast.Name) and t.id not in derived:
+                            derived.add(t.id)
+                            changed = True
+        for c in ast.walk(f):
+            if not (isinstance(c, ast.Call) and isinstance(c.func, ast.Attribute) and isinstance(c.func.value, ast.Name)
+                    and c.func.value.id == "self" and c.func.attr in methods):
+                continue
+            ps = [p for p in methods[c.func.attr] if p != "self"]
+            got: dict[str, ast.AST] = {}
+            for i, a in enumerate(c.args):
+                if i < len(ps) and not isinstance(a, ast.Starred):
+                    got[ps[i]] = a
+            for kw in c.keywords:
+                if kw.arg:
+                    got[kw.arg] = kw.value
+            v = got.get("path")
+            if v is None:
+                continue
+            n += 1
+            ok = any(isinstance(x, ast.Name) and x.id in derived for x in ast.walk(v))
+            check.ob(rule, c, f"{qualname_of(f)}: self.{c.func.attr}(path=`{unparse(v)}`)", ok,
+                     "derived from the caller's own path" if ok else
+                     f"`{unparse(v)}` is not derived from the caller's `path` parameter: the callee works at another position than the value it completes")
+    check.floor(rule, 15, "calls passing a path between executor methods")
